@@ -103,10 +103,19 @@ use std::io::Error as IoError;
 use std::io::ErrorKind as IoErrorKind;
 use std::io::Result as IoResult;
 use std::net::{Shutdown, TcpStream, ToSocketAddrs};
+#[cfg(tiny_http_verif)]
+use simrt::sync::atomic::AtomicBool;
+#[cfg(tiny_http_verif)]
+use simrt::sync::mpsc;
+#[cfg(tiny_http_verif)]
+use simrt::thread;
+#[cfg(not(tiny_http_verif))]
 use std::sync::atomic::AtomicBool;
 use std::sync::atomic::Ordering::Relaxed;
+#[cfg(not(tiny_http_verif))]
 use std::sync::mpsc;
 use std::sync::Arc;
+#[cfg(not(tiny_http_verif))]
 use std::thread;
 use std::time::Duration;
 
@@ -461,6 +470,8 @@ impl Drop for Server {
         // Connect briefly to ourselves to unblock the accept thread
         let maybe_stream = match &self.listening_addr {
             ListenAddr::IP(addr) => TcpStream::connect(addr).map(Connection::from),
+            #[cfg(tiny_http_verif)]
+            ListenAddr::Sim(addr) => simrt::net::connect(addr).map(Connection::from),
             #[cfg(unix)]
             ListenAddr::Unix(addr) => {
                 // TODO: use connect_addr when its stabilized.
